@@ -89,21 +89,25 @@ def confirm(wt, mdir):
     return 0 if ok else 1
 
 
-def try_(mdir, props, tier):
+def try_(mdir, props, tier, worktree=None):
+    """worktree=None: apply to /repo itself (the registered way).  worktree=<dir>: apply there and run the
+    same checks with KTVERIF_REPO=<dir> (own caches), so several mutants can be tried concurrently."""
     patch = os.path.join(mdir, "patch.diff")
-    rc, out = sh("git -C /repo status --porcelain --untracked-files=no")
+    repo = worktree or "/repo"
+    envp = ("KTVERIF_REPO=%s " % worktree) if worktree else ""
+    rc, out = sh("git -C %s status --porcelain --untracked-files=no" % repo)
     if out.strip():
-        print("refusing: /repo working tree is not clean")
+        print("refusing: %s working tree is not clean" % repo)
         return 2
-    rc, out = sh("git -C /repo apply %s" % patch)
+    rc, out = sh("git -C %s apply %s" % (repo, patch))
     if rc != 0:
-        print("patch does not apply to /repo:", out)
+        print("patch does not apply to %s:" % repo, out)
         return 2
     results = {}
     try:
         for p in props:
             t0 = time.time()
-            rc, out = sh("bin/check %s --tier %s" % (p, tier), cwd=VERIF, timeout=7200)
+            rc, out = sh("%sbin/check %s --tier %s" % (envp, p, tier), cwd=VERIF, timeout=7200)
             sigs = sorted({l.split("sig=")[1].split(" ")[0] for l in out.splitlines() if l.startswith("VIOLATION") and "sig=" in l})
             first = next((l for l in out.splitlines() if l.startswith("VIOLATION")), "")
             err = [l for l in out.splitlines() if l.startswith("ERROR")]
@@ -112,7 +116,7 @@ def try_(mdir, props, tier):
             if first:
                 print("   " + first[:400])
     finally:
-        sh("git -C /repo checkout -- .")
+        sh("git -C %s checkout -- ." % repo)
     json.dump(results, open(os.path.join(mdir, "verif_result_%s.json" % tier), "w"), indent=1)
     return 0
 
@@ -152,7 +156,12 @@ def main():
             i = rest.index("--tier")
             tier = rest[i + 1]
             rest = rest[:i] + rest[i + 2:]
-        return try_(a[1], rest, tier)
+        wt = None
+        if "--worktree" in rest:
+            i = rest.index("--worktree")
+            wt = rest[i + 1]
+            rest = rest[:i] + rest[i + 2:]
+        return try_(a[1], rest, tier, wt)
     if a[0] == "adopt":
         return adopt(a[1], a[2], a[3], a[4])
     print(__doc__)
